@@ -868,6 +868,22 @@ pub fn evaluate_single(cfg: &RunCfg, rec: &RunRecord) -> (Vec<Finding>, Facts) {
         ));
     }
 
+    // a heap block released with a size other than the one it was allocated with: undefined
+    // behaviour of the allocator API (a buffer rebuilt with a wrong capacity), whatever the
+    // system allocator makes of it
+    if rec.layout_mismatch.0 > 0 {
+        for p in ["C15", "C17"] {
+            out.push(f(
+                p,
+                "dealloc-layout-mismatch",
+                format!(
+                    "{} heap block(s) of the source or of the iterator machinery were released with a layout other than their own (first: allocated with {} bytes, released as {} bytes): undefined behaviour of GlobalAlloc::dealloc",
+                    rec.layout_mismatch.0, rec.layout_mismatch.1, rec.layout_mismatch.2
+                ),
+            ));
+        }
+    }
+
     // ---------------------------------------------------------------- C10: into_seq_iter
     if let (Some(items), false) = (&rec.seq_items, has_panic) {
         let delivered: Vec<i128> = seen.keys().cloned().collect();
